@@ -655,6 +655,124 @@ def hostile_close(ctx, sigs):
 OPS = ['alive', 'wait', 'kill:1', 'kill:2', 'kill:9', 'kill:15', 'kill:18', 'term:0', 'term:1', 'close:0', 'close:1', 'ends', 'send', 'read', 'exit:0', 'exit:1']
 
 
+def in_fork(fn, *args):
+    """run fn(*args) in a forked copy of this process (pexpect imported before the fork, as in a daemon, a pre-forking server or a
+    multiprocessing worker) and hand its (string) result back"""
+    r, w = os.pipe()
+    pid = os.fork()
+    if pid == 0:
+        try:
+            os.close(r)
+            try:
+                out = fn(*args)
+            except BaseException as e:      # noqa
+                out = 'EXC-IN-FORK:%s: %s' % (type(e).__name__, str(e)[:200])
+            os.write(w, out.encode('utf-8', 'replace'))
+        finally:
+            os._exit(0)
+    os.close(w)
+    data = b''
+    with common.guard(120):
+        while True:
+            d = os.read(r, 65536)
+            if not d:
+                break
+            data += d
+    os.close(r)
+    os.waitpid(pid, 0)
+    return data.decode('utf-8', 'replace')
+
+
+def forked_histories(ctx, sigs, cases, mouts):
+    """the same histories in a process that was forked after pexpect had been imported: the children it starts are its own"""
+    prop = ctx.prop
+    k = 0
+    for (d, plan, ops), mo in zip(cases, mouts):
+        if 'wait' in ops and 's' in d:
+            continue
+        k += 1
+        if k > (10 if ctx.quick() else 80):
+            break
+        try:
+            real = in_fork(run_real, d, plan, ops, 10)
+        except common.Stuck:
+            real = 'EXC-IN-FORK:still-running-after-120s'
+        if real.startswith('EXC-IN-FORK'):
+            bad = ('*', real)
+        else:
+            bad = oracle(d, plan, ops, real)
+        sigs.add(('forked', d, tuple(o.split(':')[0] for o in ops)))
+        if bad and bad[0] in (prop, '*'):
+            common.report(ctx, 'life/forked/%s/%s' % (d or 'normal', '+'.join(o.split(':')[0] for o in ops)[:40]),
+                          'in a forked process, child(%s, plan %s) ops %s: %s' % (d or 'normal', plan, ops, bad[1]),
+                          dict(disposition=d, plan=list(plan), ops=ops, real=real, how='harness/props/lifecycle.py in_fork(run_real, disp, plan, ops)'))
+            return
+        if mo is not None and real != mo and not ctx.violations and not ctx.broken:
+            again = in_fork(run_real, d, plan, ops, 25)
+            if again != mo:
+                ctx.broken.append('correspondence life-cycle model vs real child in a forked process (%s, %s) ops %s: real [%s] model [%s]' % (d or 'normal', plan, ops, again, mo))
+                return
+    ctx.cov['forked_histories'] = k
+
+
+def sigchld_ignored_wait(plan):
+    """(runs in a forked process) the application ignores SIGCHLD - the kernel then reaps children by itself - and the child ends while
+    wait() is blocked: whatever wait() does then, it must not invent a fate"""
+    signal.signal(signal.SIGCHLD, signal.SIG_IGN)
+    ch = Child('', plan)
+    p = ch.p
+    real_waitpid = os.waitpid
+    fired = []
+
+    def waitpid(pid, options):
+        if pid == ch.pid and options == 0 and not fired:
+            fired.append(1)
+            ch.end()                      # the child meets its end now, and the kernel reaps it at once
+            for _ in range(2000):
+                if proc_state(ch.pid) == 'X':
+                    break
+                time.sleep(0.001)
+        return real_waitpid(pid, options)
+    os.waitpid = waitpid
+    try:
+        try:
+            with common.guard(30):
+                ret = 'ret:%r' % (p.wait(),)
+        except common.Stuck:
+            ret = 'EXC:still-blocked-after-30s'
+        except Exception as e:      # noqa
+            ret = 'EXC:%s' % type(e).__name__
+        line = '%s|%s' % (ret, show_sp(p))
+        try:
+            alive = p.isalive()
+            line += ' ; alive:%s|%s' % (alive, show_sp(p))
+        except Exception as e:      # noqa
+            line += ' ; alive:EXC:%s|%s' % (type(e).__name__, show_sp(p))
+    finally:
+        os.waitpid = real_waitpid
+        ch.cleanup()
+    return line
+
+
+def stage_sigchld_ignored(ctx, sigs):
+    for plan in (('e', 7), ('e', 0), ('s', 15)):
+        line = in_fork(sigchld_ignored_wait, plan)
+        sigs.add(('sigchld-ignored', plan[0], line.split('|')[0].split(':')[0]))
+        ctx.cov['sigchld_ignored_runs'] = ctx.cov.get('sigchld_ignored_runs', 0) + 1
+        want = ('e=%d s=-' % plan[1]) if plan[0] == 'e' else ('e=- s=%d' % plan[1])
+        for part in line.split(' ; '):
+            st = part.split('|')[-1]
+            claimed = 't=true' in st
+            if part.startswith('ret:') and plan[0] == 'e' and part.split('|')[0] != 'ret:%d' % plan[1]:
+                common.report(ctx, 'life/sigchld-ignored/wait-returned', 'SIGCHLD ignored, the child (plan %s) ended while wait() was blocked: wait() returned %s [%s]; the child\'s fate '
+                              'is not known to anybody' % (list(plan), part.split('|')[0][4:], st), dict(stage='stage_sigchld_ignored', plan=list(plan), line=line))
+                return
+            if claimed and want not in st:
+                common.report(ctx, 'life/sigchld-ignored/status-invented', 'SIGCHLD ignored, the child (plan %s) ended while wait() was blocked: the object says [%s]' % (list(plan), st),
+                              dict(stage='stage_sigchld_ignored', plan=list(plan), line=line))
+                return
+
+
 def run(ctx):
     prop = ctx.prop
     common.prove(ctx, [prop])
@@ -731,7 +849,9 @@ def run(ctx):
             continue
         if mo is not None and real != mo:
             ctx.broken.append('correspondence life-cycle model vs real child(%s, %s) ops %s: real [%s] model [%s]' % (d or 'normal', plan, ops, real, mo))
+    forked_histories(ctx, sigs, cases, mouts)
     if prop == 'C09':
+        stage_sigchld_ignored(ctx, sigs)
         last_words(ctx, sigs)
         popen_and_run(ctx, sigs)
         popen_histories(ctx, sigs)
